@@ -2,6 +2,7 @@ package main
 
 import (
 	"fmt"
+	"go/types"
 	"strings"
 
 	"golang.org/x/tools/go/ssa"
@@ -104,7 +105,7 @@ func (ro *Roles) reloadModset(r *Report, rule string) {
 		return
 	}
 	fn := ro.Replace
-	res := w.EnumPaths(fn, EnumOpts{})
+	res := w.EnumPaths(fn, EnumOpts{Inline: true})
 	ok := len(res.Paths) > 0
 	detail := ""
 	stored := false
@@ -184,7 +185,209 @@ func (ro *Roles) defsImmutable(r *Report, rule string) {
 	if bad == 0 {
 		r.OK(rule, "module: no in-place mutation of definitions outside the loader", "-", fmt.Sprintf("%d stores/map updates on definition values inspected; all are in package definition's loader or on fresh local copies", n))
 	}
+	ro.sharedSlices(r, rule+".slices")
 }
+
+// sharedSlices: slices held in definition structs (script, depends_on, …) are copied by
+// reference into every job; writing through such a slice — element store, append onto a
+// shortened reslice (the in-place filter idiom), sort, copy — changes what other jobs and
+// the definition itself see. Checked for direct uses and through module callees that write
+// through a slice parameter (summaries, depth ≤ 3).
+func (ro *Roles) sharedSlices(r *Report, rule string) {
+	w := ro.w
+	dp := w.Pkg("definition")
+	if dp == nil {
+		return
+	}
+	// shared(v): v is a slice read from a field of a definition struct (through any chain of
+	// fields/elements), not in the loader
+	var shared func(v ssa.Value, d int) bool
+	shared = func(v ssa.Value, d int) bool {
+		if d > 8 {
+			return false
+		}
+		v = w.Resolve(v)
+		if _, ok := v.Type().Underlying().(*types.Slice); !ok {
+			return false
+		}
+		inDef := func(t types.Type) bool {
+			nm := namedOf(t)
+			return nm != nil && nm.Obj().Pkg() == dp.Pkg
+		}
+		switch x := v.(type) {
+		case *ssa.UnOp:
+			if x.Op.String() != "*" {
+				return false
+			}
+			for a := w.resolveAddr(x.X); ; {
+				fa, ok := a.(*ssa.FieldAddr)
+				if !ok {
+					return false
+				}
+				if inDef(fa.X.Type()) {
+					return true
+				}
+				a = w.resolveAddr(fa.X)
+			}
+		case *ssa.Field:
+			for cur := ssa.Value(x); ; {
+				f, ok := cur.(*ssa.Field)
+				if !ok {
+					return false
+				}
+				if inDef(f.X.Type()) {
+					return true
+				}
+				cur = w.Resolve(f.X)
+			}
+		case *ssa.Slice:
+			return shared(x.X, d+1)
+		case *ssa.Phi:
+			for _, e := range x.Edges {
+				if e != ssa.Value(x) && shared(e, d+1) {
+					return true
+				}
+			}
+		}
+		return false
+	}
+	// derives(v, from): v is from, a reslice of it, or a phi/append chain rooted in a reslice of it
+	var derives func(v, from ssa.Value, d int) bool
+	derives = func(v, from ssa.Value, d int) bool {
+		if d > 8 {
+			return false
+		}
+		v = w.Resolve(v)
+		if v == from {
+			return true
+		}
+		switch x := v.(type) {
+		case *ssa.Slice:
+			return derives(x.X, from, d+1)
+		case *ssa.Phi:
+			for _, e := range x.Edges {
+				if e != ssa.Value(x) && derives(e, from, d+1) {
+					return true
+				}
+			}
+		case *ssa.Call:
+			if b, ok := x.Call.Value.(*ssa.Builtin); ok && b.Name() == "append" {
+				return derives(x.Call.Args[0], from, d+1)
+			}
+		}
+		return false
+	}
+	// writesThrough(fn, root): instructions of fn that write into the backing array of root
+	type wr struct {
+		in   ssa.Instruction
+		what string
+	}
+	var summary func(f *ssa.Function, pi int, d int) []wr
+	writesThrough := func(fn *ssa.Function, root ssa.Value, d int) []wr {
+		var out []wr
+		for _, f := range withClosures(fn) {
+			allInstrs(f, func(in ssa.Instruction) {
+				switch x := in.(type) {
+				case *ssa.Store:
+					if ia, ok := w.resolveAddr(x.Addr).(*ssa.IndexAddr); ok && derives(ia.X, root, 0) {
+						out = append(out, wr{in, "element store"})
+					}
+				case *ssa.Call:
+					if b, ok := x.Call.Value.(*ssa.Builtin); ok {
+						switch b.Name() {
+						case "append":
+							// append onto a reslice that is shorter than its operand overwrites in place
+							if sl, ok := w.Resolve(x.Call.Args[0]).(*ssa.Slice); ok && sl.High != nil && derives(sl.X, root, 0) {
+								out = append(out, wr{in, "append onto a shortened reslice (in-place filter)"})
+							} else if ap, ok := w.Resolve(x.Call.Args[0]).(*ssa.Phi); ok && derives(ap, root, 0) && !ssaIs(root, ap) {
+								// result := s[:0]; for … { result = append(result, …) }
+								for _, e := range ap.Edges {
+									if sl, ok := w.Resolve(e).(*ssa.Slice); ok && sl.High != nil && derives(sl.X, root, 0) {
+										out = append(out, wr{in, "append onto a shortened reslice (in-place filter)"})
+									}
+								}
+							}
+						case "copy":
+							if derives(x.Call.Args[0], root, 0) {
+								out = append(out, wr{in, "copy into it"})
+							}
+						}
+						return
+					}
+					callee := x.Call.StaticCallee()
+					if callee == nil {
+						return
+					}
+					args := x.Call.Args
+					if callee.Pkg != nil && callee.Pkg.Pkg.Path() == "sort" || callee.Pkg != nil && callee.Pkg.Pkg.Path() == "slices" && strings.HasPrefix(callee.Name(), "Sort") {
+						if len(args) > 0 && derives(args[0], root, 0) {
+							out = append(out, wr{in, callee.Pkg.Pkg.Path() + "." + callee.Name() + " reorders it"})
+						}
+						return
+					}
+					if w.InModule(callee) && callee.Blocks != nil && d < 3 {
+						for i, a := range args {
+							if i < len(callee.Params) && derives(a, root, 0) {
+								for _, s := range summary(callee, i, d+1) {
+									out = append(out, wr{in, "passed to " + FuncName(callee) + ", which does: " + s.what})
+								}
+							}
+						}
+					}
+				}
+			})
+		}
+		return out
+	}
+	memo := map[[2]interface{}][]wr{}
+	summary = func(f *ssa.Function, pi int, d int) []wr {
+		k := [2]interface{}{f, pi}
+		if v, ok := memo[k]; ok {
+			return v
+		}
+		memo[k] = nil
+		v := writesThrough(f, f.Params[pi], d)
+		memo[k] = v
+		return v
+	}
+	n, bad := 0, 0
+	for _, fn := range w.ModFuncs {
+		top := fn
+		for top.Parent() != nil {
+			top = top.Parent()
+		}
+		if top.Package() == dp || fn.Parent() != nil {
+			continue
+		}
+		// roots: every shared slice value read in fn (incl. closures)
+		var roots []ssa.Value
+		for _, f := range withClosures(fn) {
+			allInstrs(f, func(in ssa.Instruction) {
+				if v, ok := in.(ssa.Value); ok {
+					switch v.(type) {
+					case *ssa.UnOp, *ssa.Field:
+						if shared(v, 0) {
+							roots = append(roots, v)
+						}
+					}
+				}
+			})
+		}
+		for _, root := range roots {
+			n++
+			for _, x := range writesThrough(fn, root, 0) {
+				bad++
+				r.Viol(rule, FuncName(fn)+": write through a slice of the definitions", w.InstrPos(x.in), "the slice "+w.AP(root)+" is shared by reference between the definition and every job made from it; "+x.what+": the definition (and the dependency list the execution graph is built from) is changed for this and every later job")
+			}
+		}
+	}
+	r.Count("shared_slice_reads", n)
+	if bad == 0 {
+		r.Check(n >= 3, rule, "module: slices of the definitions are read-only", "-", fmt.Sprintf("%d reads of slices held in definition structs; none is written through (element store, in-place filter append, sort, copy — directly or in a module callee)", n), fmt.Sprintf("only %d reads of definition slices found: the rule no longer sees the script/depends_on uses", n))
+	}
+}
+
+func ssaIs(a ssa.Value, b ssa.Value) bool { return a == b }
 
 // whoDeletesJobs: jobs leave the id index only on the retention path of the save function.
 func (ro *Roles) whoDeletesJobs(r *Report, rule string) {
